@@ -1336,7 +1336,9 @@ impl Checker {
             }
         };
 
-        let resolved_path = working_dir.join(path);
+        // Fold `.` and `..` so that every spelling of a file is one cache key and
+        // one entry of the import stack (a cycle spelled with `..` is still a cycle).
+        let resolved_path = crate::path::normalize(working_dir.join(path));
 
         // Check the cache first
         if let Some(cached) = self.shape_cache.borrow().get(&resolved_path) {
